@@ -103,6 +103,10 @@ type Config struct {
 	// Faults: call kinds that ALWAYS fail in this configuration (used to split the existing-bid query's
 	// three answers over configurations); each such failure counts against MaxFaults.
 	Faults []string
+	// ChainBid: ground truth of the harness's chain model, independent of what the existing-bid query answers: the
+	// provider holds an OPEN bid on this order on chain when the handler starts. (True by construction when the
+	// query answers found-open, where clause 1b already applies; set for the shape whose query fails with a generic error.)
+	ChainBid bool
 	// Ladder: the iterative-deviation-bounding budgets "p,e;p,e;..." explored for this configuration
 	// (p preemptions, e early injections); chosen per configuration so that every tier completes.
 	Ladder string
@@ -733,6 +737,22 @@ func (h *inst) check(r *vs.Result) (string, []string) {
 		}
 		if strings.HasPrefix(q.result, "found-") && n > 0 {
 			bad("second-bid:existing-bid-"+strings.TrimPrefix(q.result, "found-"), "MsgCreateBid broadcast although the existing-bid query had returned this provider's bid on the order (state %s)", strings.TrimPrefix(q.result, "found-"))
+		}
+	}
+	// (1b') the same against the chain model, whatever the handler was told (e.g. the query failed with a transport
+	// error): a MsgCreateBid while the provider's open bid on the order exists and has not been closed is a second bid
+	if h.cfg.ChainBid {
+		for _, c := range creates {
+			if c.closesBefore == 0 {
+				bad("second-bid:own-open-bid-on-chain", "MsgCreateBid broadcast for an order on which the provider already holds an open bid on chain (existing-bid query answered: %v)", func() []string {
+					var r []string
+					for _, q := range byKind[kBidQuery] {
+						r = append(r, q.result)
+					}
+					return r
+				}())
+				break
+			}
 		}
 	}
 	// (1c) LeaseWon may only be announced for the lease of THIS order and THIS provider
